@@ -300,4 +300,7 @@ Lemma roundtrip_examples :
   (exists rc, compute_reciprocal cf16 24 = Some rc /\ r_ret rc = 1 /\
               quantize_recip_one cf16 rc 100 = 4 /\ quantize_recip_one cf16 rc (-108) = -5 /\
               quantize_simd_one rc (-108) = -5).
-Proof. vm_compute. repeat split; try reflexivity; eexists; repeat split; reflexivity. Qed.
+Proof.
+  split; [vm_compute; reflexivity|]. split; [vm_compute; reflexivity|]. split; [vm_compute; reflexivity|].
+  split; (eexists; split; [vm_compute; reflexivity|]; vm_compute; repeat split; reflexivity).
+Qed.
